@@ -284,7 +284,7 @@ func Run(o Options) int {
 			if o.Prop == "C09" && !o.Sweep {
 				// panic-freedom obligations, plus what their proofs lean on inside the same run: the loop invariants of the
 				// unit (assumed at every loop head) and every clause of a unit whose contract another unit uses
-				if ob.Kind != "safe" && ob.Kind != "decreases" && ob.Kind != "call-pre" && ob.Kind != "inv-entry" && ob.Kind != "inv-keep" &&
+				if ob.Kind != "safe" && ob.Kind != "decreases" && ob.Kind != "call-pre" && ob.Kind != "inv-entry" && ob.Kind != "inv-keep" && ob.Kind != "cut" && ob.Kind != "typeinv" &&
 					!vc.TagHasProp(ob.Tag, "C09") && !usedByOthers[u.Key] {
 					continue
 				}
